@@ -252,6 +252,12 @@ const defaultHwAddrLen = 6
 
 // Add the specified IP to the black list for a time period
 func (s *v4Server) blocklistLease(l *dhcpsvc.Lease) {
+	if l.Hostname != "" {
+		// The lease may be a recycled expired one that still carries the
+		// hostname of its previous owner.
+		delete(s.hostsIndex, l.Hostname)
+	}
+
 	l.HWAddr = make(net.HardwareAddr, defaultHwAddrLen)
 	l.Hostname = ""
 	l.Expiry = time.Now().Add(s.conf.leaseTime)
